@@ -321,7 +321,7 @@ func (r *cbRun) Enabled(op string) bool {
 		return true
 	case "t->delay-1", "t->delay":
 		return m.state == circuitbreaker.OpenState && m.now() < m.openedAt+m.delay-boolInt(op == "t->delay-1")
-	case "t+slice-1", "t+slice", "t+P":
+	case "t+slice-1", "t+slice", "t+3slices", "t+8slices", "t+P":
 		return r.s.FPeriod != 0
 	case "execOk", "execErr":
 		return m.state != circuitbreaker.HalfOpenState || m.outstanding == 0 || m.permits > 0
@@ -416,6 +416,10 @@ func (r *cbRun) Apply(op string) string {
 		vrt.Sleep(r.slice - 1)
 	case "t+slice":
 		vrt.Sleep(r.slice)
+	case "t+3slices":
+		vrt.Sleep(3 * r.slice)
+	case "t+8slices":
+		vrt.Sleep(8 * r.slice)
 	case "t+P":
 		vrt.Sleep(int64(r.s.FPeriod))
 	case "t->delay-1":
@@ -575,7 +579,13 @@ func c03Systems(tier string) []*BXSystem {
 	}
 	succs := [][2]uint{{0, 0}, {1, 1}, {2, 2}, {1, 2}, {2, 3}, {3, 5}}
 	var out []*BXSystem
-	baseOps := []string{"succ", "fail", "acq", "execOk", "execErr", "open", "halfopen", "close", "t+1", "t->delay-1", "t->delay", "t+slice-1", "t+slice", "t+P"}
+	baseOps := []string{"succ", "fail", "acq", "execOk", "execErr", "open", "halfopen", "close", "t+1", "t->delay-1", "t->delay", "t+slice-1", "t+slice", "t+3slices", "t+8slices", "t+P"}
+	var quickOps []string
+	for _, o := range baseOps {
+		if o != "t+3slices" && o != "t+8slices" {
+			quickOps = append(quickOps, o)
+		}
+	}
 	i := 0
 	for _, f := range fails {
 		for _, sc := range succs {
@@ -587,7 +597,11 @@ func c03Systems(tier string) []*BXSystem {
 			s.ST, s.SC = sc[0], sc[1]
 			s.BDelay = D
 			sp := s
-			out = append(out, &BXSystem{Name: "C03/" + sp.String(), Ops: baseOps, New: func() BXRun { return newCBRun(sp) }})
+			ops := baseOps
+			if tier != "thorough" && sc[0] != 0 {
+				ops = quickOps // quick: the multi-slice advances go with every failure configuration, not with every success threshold
+			}
+			out = append(out, &BXSystem{Name: "C03/" + sp.String(), Ops: ops, New: func() BXRun { return newCBRun(sp) }})
 		}
 	}
 	// handle conditions through RecordResult / RecordError
@@ -620,6 +634,7 @@ func init() {
 		Assume: []string{"window envelope: results older than the period never count, those from its most recent nine tenths always do (in between either reading is accepted)",
 			"percentage thresholds within half a point of the threshold accept either decision", "in half-open, results are recorded only by holders of a trial permit",
 			"metrics of an open breaker are compared only while nothing has been recorded since it opened"},
+		Budget: map[string]time.Duration{"quick": 240 * time.Second},
 		Units: func(tier string) []Unit {
 			depth := 6
 			if tier == "thorough" {
